@@ -1,8 +1,11 @@
 From Coq Require Import Extraction ExtrOcamlBasic List ZArith.
-From BioVerif Require Import Lib.Conv Lib.Word Model.NetArith Model.IPText.
+From BioVerif Require Import Lib.Conv Lib.Word Model.NetArith Model.IPText Gen.NetGen.
 Extraction Language OCaml.
 Extraction "c15_model.ml" conv_anchor
   mkip mkpfx hi lo legacy addr plen
   Contains containsIPv4 containsIPv6 pfx_equal ip_equal ip_compare GetSupernet supernetIPv4 supernetIPv6
   Valid checkLastNBitsUint32 checkLastNBitsUint64 BaseAddr BitAtPosition MaskLastNBits BytesInAddr
-  ip_string pfx_string Bytes IPFromBytes IPFromString PrefixFromString appendHex.
+  ip_string pfx_string Bytes IPFromBytes IPFromString PrefixFromString appendHex
+  g_Prefix_Contains g_Prefix_containsIPv4 g_Prefix_containsIPv6 g_Prefix_Equal g_IP_Equal g_IP_Compare
+  g_Prefix_GetSupernet g_Prefix_Valid g_checkLastNBitsUint32 g_checkLastNBitsUint64 g_Prefix_BaseAddr
+  g_IP_BitAtPosition g_IP_MaskLastNBits.
